@@ -187,6 +187,17 @@ Poll ==
                /\ calm' = (calm /\ \A s \in Cur \ pending : svc[s].st # "missing")
     /\ UNCHANGED <<clk, bt, h, par, feeds, updT, updH, vp, slot, active, since, svc, mempool, down, rejSeen>>
 
+\* a poll in which a chain query of the daemon fails: the validity query (loop body skipped: "queryErr"), or - the
+\* validator being required to feed - one of the three refresh queries of updateInternalVariables (params, current
+\* feeds, own validator prices: "updateFailed").  The daemon's view is stale: it must decide NOTHING in this poll.
+PollFail(qs) ==
+    /\ qs # {} /\ qs \subseteq {"valid", "params", "feeds", "vprices"}
+    /\ lastPoll' = clk
+    /\ out' = [stage |-> IF "valid" \in qs THEN "queryErr" ELSE IF ~active THEN "notValid" ELSE "updateFailed", m |-> <<>>]
+    /\ calm' = FALSE
+    /\ UNCHANGED <<pending, subs, nsub, waited>>
+    /\ UNCHANGED <<clk, bt, h, par, feeds, updT, updH, vp, slot, active, since, svc, mempool, down, rejSeen>>
+
 (***************************************************************************)
 (* The submitter (submitter.go submitPrice).  A failed try is followed by  *)
 (* the next try with the SAME message, or by giving up; pending is         *)
